@@ -208,7 +208,21 @@ def check(program, rep):
                             # out something the value depends on answers
                             # with another call's result
                             from ..memo import memo_verdict, \
-                                memo_values_mutable
+                                memo_values_mutable, memo_stores_generator
+                            try:
+                                gen_ = memo_stores_generator(fn, o[2])
+                            except AnalysisError:
+                                gen_ = None
+                            if gen_:
+                                rep.bad("C17-R2", inst,
+                                        "cached generator %s" % gen_,
+                                        "%s keeps the generator returned by "
+                                        "%s() in the module-level %s.%s and "
+                                        "hands the same one-shot iterator to "
+                                        "later callers: they get what "
+                                        "earlier callers left of it" % (
+                                            q, gen_, o[1], o[2]), e.node)
+                                continue
                             try:
                                 verdict, text = memo_verdict(fn, o[2])
                                 if verdict == "ok" and memo_values_mutable(
@@ -331,6 +345,39 @@ def check(program, rep):
         raise AnalysisError("value classes: only %d query methods found" %
                             n_q)
     # module-level mutable inventory (R2, positive control)
+    # instances do not adopt module-level mutable objects: an attribute set
+    # to such an object itself (not a copy) is shared by every instance, so
+    # editing one instance changes what later calls see
+    from ..terms import Terms, alternatives, plain as _plain
+    for m in mods:
+        mutables = set()
+        for st in program.modules[m].tree.body:
+            if isinstance(st, ast.Assign) and _mutable_ctor(st.value):
+                mutables |= set(t.id for t in st.targets
+                                if isinstance(t, ast.Name))
+        if not mutables:
+            continue
+        for q, fn in program.functions(m):
+            if q.rsplit(".", 1)[-1] != "__init__":
+                continue
+            try:
+                TI = Terms(fn)
+                binds = [b_ for b_ in TI.binds if b_.mode == "assign" and
+                         b_.var.startswith("self.") and b_.value is not None]
+                for b_ in binds:
+                    for alt in alternatives(TI._bind_term(b_)):
+                        alt = _plain(alt)
+                        if alt[0] == "global" and alt[1] in mutables:
+                            rep.bad("C17-R3", "%s:%s" % (m, q),
+                                    "shares module-level %s" % alt[1],
+                                    "%s stores the module-level mutable %s "
+                                    "itself in %s (no copy): every instance "
+                                    "built that way shares one object, an "
+                                    "edit of one changes the others and "
+                                    "later results" % (q, alt[1], b_.var),
+                                    b_.node.ast)
+            except AnalysisError:
+                continue
     inv = []
     for m in mods:
         for st in program.modules[m].tree.body:
